@@ -1,6 +1,6 @@
 (* C20 - coupling-graph and qudit-permutation utilities match their definitions.
    Statements only, each closed by `exact <lemma>`; the models are map/Graph.v,
-   map/GraphFloyd.v, map/GraphExt.v, map/Kron.v (no proofs there) and the proofs are in
+   map/GraphFloyd.v, map/GraphExt.v, map/GraphQpu.v, map/Kron.v (no proofs there) and the proofs are in
    map/Graph*Thm.v, map/Kron*Thm.v.  Hypotheses used throughout (map/GraphThm.v):
      wf g        every neighbour label is < length g
      sym g       adjacency lists are symmetric (undirected graph)
@@ -12,7 +12,7 @@ From Coq Require Import List Arith ZArith Sorted Lia.
 Import ListNotations.
 From BQ Require Import map.Graph map.GraphThm map.GraphPermThm map.GraphFloyd map.GraphFloydThm
   map.GraphFcwThm map.GraphSubThm map.GraphSptThm map.GraphExt map.GraphCtorThm map.GraphIsoThm
-  map.GraphEmbedThm map.GraphMiscThm map.Kron map.KronThm map.KronEmbedThm map.KronPermGenThm.
+  map.GraphEmbedThm map.GraphMiscThm map.GraphQpu map.GraphQpuThm map.Kron map.KronThm map.KronEmbedThm map.KronPermGenThm.
 
 (* ==== CouplingGraph.is_fully_connected ================================================
    Answers for every non-empty well-formed graph, and answers `true` exactly when every
@@ -348,6 +348,96 @@ Proof. exact maximal_matching_spec. Qed.
 Example C20_maximal_matching_nonvacuous :
   maximal_matching [(0, 1); (1, 2); (2, 3); (3, 4)] [(2, 1)] = [(2, 3); (0, 1)].
 Proof. reflexivity. Qed.
+
+(* ==== MachineModel(num_qudits, edge list) / MachineModel.get_locations ===========================
+   The constructor accepts exactly: num_qudits > 0, every label < num_qudits, no pair (a, a);
+   the stored coupling graph then has num_qudits vertices (trailing qudits without an edge
+   included - was defect C20-F2) and the adjacency of the edge list.  get_locations(k) returns
+   exactly the connected k-subsets of that graph, each once, as strictly increasing tuples;
+   it raises ValueError exactly for k = 0 or k > num_qudits. *)
+Theorem C20_machine_ctor : forall n es g, mm_graph n es = Ok g ->
+  0 < n /\ edges_ok n es /\ (forall a, ~ In (a, a) es) /\
+  wf g /\ sym g /\ loopfree g /\ nodup_adj g /\ length g = n /\
+  forall x y, In x (nbrs g y) <-> (In (x, y) es \/ In (y, x) es).
+Proof. exact mm_graph_ok. Qed.
+
+Theorem C20_machine_ctor_accepts : forall n es, 0 < n -> edges_ok n es -> (forall a, ~ In (a, a) es) ->
+  exists g, mm_graph n es = Ok g.
+Proof. exact mm_graph_accepts. Qed.
+
+Theorem C20_machine_ctor_errors : forall n es,
+  (mm_graph n es = ValueError <-> n = 0) /\
+  (mm_graph n es = TypeError <-> (n <> 0 /\ (~ edges_ok n es \/ exists a, In (a, a) es))).
+Proof. exact mm_graph_errors. Qed.
+
+Theorem C20_machine_get_locations : forall n es k res, mm_get_locations n es k = Ok res ->
+  exists g, mm_graph n es = Ok g /\ length g = n /\
+    (forall x y, In x (nbrs g y) <-> (In (x, y) es \/ In (y, x) es)) /\
+    NoDup res /\ forall l, In l res <-> conn_k_subset g k l.
+Proof. exact mm_get_locations_spec. Qed.
+
+Theorem C20_machine_get_locations_value_error : forall n es k g, mm_graph n es = Ok g ->
+  (mm_get_locations n es k = ValueError <-> (k = 0 \/ n < k)).
+Proof. exact mm_get_locations_value_error. Qed.
+
+Example C20_machine_nonvacuous :
+  mm_get_locations 5 [(0, 1); (1, 2)] 2 = Ok [[1; 2]; [0; 1]]
+  /\ mm_get_locations 5 [(0, 1); (1, 2)] 1 = Ok [[4]; [3]; [2]; [1]; [0]]     (* isolated qudits 3, 4 kept *)
+  /\ mm_get_locations 2 [(0, 2)] 1 = TypeError /\ mm_get_locations 0 [] 1 = ValueError
+  /\ mm_get_locations 2 [(0, 1)] 3 = ValueError.
+Proof. repeat split; reflexivity. Qed.
+
+(* ==== QPU maps: get_qpu_to_qudit_map / get_qudit_to_qpu_map ======================================
+   `local_graph g remote` is g with the remote edges deleted (C20_qpu_local_graph).  For every
+   well-formed undirected graph and EVERY remote-edge list the search (frontier set, pop, add
+   non-remote unseen neighbours) terminates, and the QPUs it returns partition the qudits,
+   each QPU being exactly a connected component of the local graph.
+   get_qudit_to_qpu_map as written returns dict VALUES in insertion order, i.e. QPU by QPU:
+   C20_qudit_to_qpu_refuted is a reachable counterexample (QPUs {0,2}, {1,3}: the code claims
+   qudit 1 is on QPU 0) - known finding C20-F8, reproduced on /repo by the harness;
+   C20_qudit_to_qpu_contiguous: the code agrees with the repaired function when the QPUs are
+   contiguous label blocks in ascending order (what tests/qis/test_graph.py exercises);
+   C20_qudit_to_qpu_fixed: the repaired function (fixes/C20-F8.patch) is right for every
+   partition.  The full statement for the code as written is kept below as a Definition. *)
+Theorem C20_qpu_local_graph : forall g remote x y,
+  In y (nbrs (local_graph g remote) x) <->
+  (In y (nbrs g x) /\ ~ In (x, y) remote /\ ~ In (y, x) remote).
+Proof. exact local_graph_spec. Qed.
+
+Theorem C20_qpu_to_qudit : forall g remote, wf g -> sym g ->
+  exists qpus, qpu_to_qudit g remote = Some qpus /\
+    NoDup (concat qpus) /\ (forall v, In v (concat qpus) <-> v < length g) /\
+    forall Q, In Q qpus -> exists r, In r Q /\ forall v, In v Q <-> reach (local_graph g remote) r v.
+Proof. exact qpu_to_qudit_spec. Qed.
+
+Definition C20_qudit_to_qpu_full : Prop := forall g remote qpus, wf g -> sym g ->
+  qpu_to_qudit g remote = Some qpus ->
+  forall q, q < length g -> In q (nth (nth q (qudit_to_qpu_coded qpus) 0) qpus []).
+
+Theorem C20_qudit_to_qpu_refuted :
+  exists g remote qpus, wf g /\ sym g /\ qpu_to_qudit g remote = Some qpus /\
+    exists q, q < length g /\ ~ In q (nth (nth q (qudit_to_qpu_coded qpus) 0) qpus []).
+Proof. exact qudit_to_qpu_coded_refuted. Qed.
+
+Theorem C20_qudit_to_qpu_contiguous : forall n qpus, concat qpus = seq 0 n ->
+  qudit_to_qpu_coded qpus = qudit_to_qpu_fixed n qpus.
+Proof. exact qudit_to_qpu_coded_contiguous. Qed.
+
+Theorem C20_qudit_to_qpu_fixed : forall n qpus,
+  NoDup (concat qpus) -> (forall v, In v (concat qpus) <-> v < n) ->
+  length (qudit_to_qpu_fixed n qpus) = n /\
+  forall q, q < n -> let i := nth q (qudit_to_qpu_fixed n qpus) 0 in
+    i < length qpus /\ In q (nth i qpus []).
+Proof. exact qudit_to_qpu_fixed_spec. Qed.
+
+Example C20_qpu_nonvacuous :
+  qpu_to_qudit [[1]; [0; 2]; [1; 3]; [2]] [(1, 2)] = Some [[0; 1]; [2; 3]]
+  /\ qudit_to_qpu_coded [[0; 1]; [2; 3]] = [0; 0; 1; 1]
+  /\ qpu_to_qudit [[2; 1]; [3; 0]; [0]; [1]] [(0, 1)] = Some [[0; 2]; [1; 3]]
+  /\ qudit_to_qpu_coded [[0; 2]; [1; 3]] = [0; 0; 1; 1]              (* wrong: C20-F8 *)
+  /\ qudit_to_qpu_fixed 4 [[0; 2]; [1; 3]] = [0; 1; 0; 1]
+  /\ NoDup (concat [[0; 2]; [1; 3]]).
+Proof. repeat split; try reflexivity. repeat constructor; simpl; intuition congruence. Qed.
 
 (* ==== degrees, is_linear ==================================================================================== *)
 Theorem C20_degrees : forall g i, length (degrees g) = length g /\ nth i (degrees g) 0 = length (nbrs g i).
